@@ -8,7 +8,7 @@
    transformation() followed by conversion_surface_params(). *)
 From Coq Require Import List ZArith Bool Reals Lra.
 From T4V Require Import Base.Scalar C04.Vec C04.Model C04.Spec C04.ProofsFrame C04.ProofsConvert
-  C04.ProofsQuad C04.ProofsSurf C04.ProofsMatrix C04.ProofsCard C04.ProofsTorus C04.ProofsMatrix5 C04.ProofsCompose C04.ProofsComposeCex C04.ProofsAdjust C04.ProofsTree.
+  C04.ProofsQuad C04.ProofsSurf C04.ProofsMatrix C04.ProofsCard C04.ProofsTorus C04.ProofsMatrix5 C04.ProofsCompose C04.ProofsComposeCex C04.ProofsAdjust C04.ProofsTree C04.ProofsInterface C04.ProofsErrors.
 Import ListNotations.
 Open Scope R_scope.
 
@@ -165,6 +165,38 @@ Theorem C04_adjust_matrix_idempotent : forall (m : M3 R) (l : list R),
   adjust_matrix RS l = Ok l.
 Proof. exact adjust_matrix_idempotent. Qed.
 Print Assumptions C04_adjust_matrix_idempotent.
+
+(* trailing J placeholders may be left out *)
+Theorem C04_normalize_matrix_trailing_J : forall l : list (option R), (List.length l <= 9)%nat ->
+  normalize_matrix RS l = normalize_matrix RS (l ++ repeat None (9 - List.length l)).
+Proof. exact normalize_matrix_trailing. Qed.
+Print Assumptions C04_normalize_matrix_trailing_J.
+
+(* which Python exception for which malformed input (one audited bundle):
+   TransformationError for a number of matrix entries other than 0,3,5,6,9; StopIteration for
+   five entries without a complete row or column; TypeError for a J in the displacement;
+   ValueError / IndexError for a transformation list of the wrong length *)
+Theorem C04_error_branches :
+  (forall l : list (option R), (List.length l <= 9)%nat ->
+     let n := count_some (l ++ repeat None (9 - List.length l)) in
+     n <> 0%nat -> n <> 3%nat -> n <> 5%nat -> n <> 6%nat -> n <> 9%nat ->
+     normalize_matrix RS l = Err ETransformation) /\
+  (forall m : M3 (option R), count_some (mlist m) = 5%nat ->
+     first_idx (fun r => is_some (all_some r)) m = None \/
+     first_idx (fun r => is_some (all_some r)) (transpose m) = None ->
+     normalize_matrix RS (mlist m) = Err EStop) /\
+  (forall (b : M3 R) (o1 o2 o3 : option R), rows_orthonormal b -> clip_ok_m b ->
+     (o1 = None \/ o2 = None \/ o3 = None) ->
+     normalize_transform RS ([o1; o2; o3] ++ map Some (mlist b)) = Err EType) /\
+  (forall (tr : list R) (s : msurf R), frame_kind (mk s) = true -> tr <> [] -> List.length tr <> 12%nat ->
+     transformation RS tr s = Err EValue) /\
+  (forall (tr : list R) (s : msurf R), (mk s = KGQ \/ mk s = KSQ) -> tr <> [] -> (List.length tr < 12)%nat ->
+     transformation RS tr s = Err EIndex).
+Proof.
+  exact (conj normalize_matrix_bad_count (conj normalize_matrix_5_irregular
+          (conj normalize_transform_J_displacement (conj transformation_bad_length transformation_quadric_short)))).
+Qed.
+Print Assumptions C04_error_branches.
 
 (* ---------- cards ---------- *)
 Theorem C04_to_cos_deg : forall a : R, to_cos RS a = cos (a * PI / 180).
@@ -325,6 +357,60 @@ Theorem C04_convert_law : forall (s : msurf R), conv_wf s ->
     forall P, (mneg s P <-> coll_neg coll P) /\ (mpos s P <-> coll_pos coll P).
 Proof. exact convert_law. Qed.
 Print Assumptions C04_convert_law.
+
+(* ---------- FOR IMPORTERS: the interface law, one statement over every kind ---------- *)
+(* [iface_wf b s]: s is convertible as it stands ([conv_wf_all]: unit axes, parameter lists of
+   the right shape, sheet in {none,0,+1,-1}, ten quadric coefficients, torus axis exactly on a
+   coordinate axis or outside the allclose band) and the torus axis moved by B is too.
+   Then: the surfaces written for the MOVED part select at O + B^T p the regions the surfaces
+   written for the UNMOVED part select at p, which are the MCNP regions of s. *)
+Theorem C04_interface_law : forall (o : R3) (b : M3 R) (s : msurf R),
+  rows_orthonormal b -> iface_wf b s ->
+  exists coll0 coll,
+    convert RS s = Ok coll0 /\ tr_convert RS (tr12 o b) s = Ok coll /\
+    forall p, (coll_neg coll (to_main o b p) <-> coll_neg coll0 p) /\
+              (coll_pos coll (to_main o b p) <-> coll_pos coll0 p) /\
+              (coll_neg coll0 p <-> mneg s p) /\ (coll_pos coll0 p <-> mpos s p).
+Proof. exact interface_law. Qed.
+Print Assumptions C04_interface_law.
+
+(* the same law in the shape  sense (tr_surf t s) p = sense s (inv t p)  with boolean senses of
+   the written collections and inv t = to_aux O B (for linking with C05's abstract hypothesis) *)
+Theorem C04_interface_law_inv : forall (o : R3) (b : M3 R) (s : msurf R),
+  rows_orthonormal b -> iface_wf b s ->
+  exists coll0 coll,
+    convert RS s = Ok coll0 /\ tr_convert RS (tr12 o b) s = Ok coll /\
+    forall p, sense_neg_b coll p = sense_neg_b coll0 (to_aux o b p) /\
+              sense_pos_b coll p = sense_pos_b coll0 (to_aux o b p).
+Proof. exact interface_law_inv. Qed.
+Print Assumptions C04_interface_law_inv.
+
+(* conversion alone, every kind (adds torus and SQ to C04_convert_law) *)
+Theorem C04_convert_law_all : forall (s : msurf R), conv_wf_all s ->
+  exists coll, convert RS s = Ok coll /\
+    forall P, (mneg s P <-> coll_neg coll P) /\ (mpos s P <-> coll_pos coll P).
+Proof. exact convert_law_all. Qed.
+Print Assumptions C04_convert_law_all.
+
+(* a dictionary entry (macrobody facets with their sides, one-sheet cones): convert_mcnp_surface
+   = SurfaceCollection.join of the converted parts selects inside-every-part / outside-some-part *)
+Theorem C04_entry_law : forall (e : list (msurf R * Z)), entry_wf e ->
+  exists coll, convert_entry RS e = Ok coll /\
+    forall P, (entry_neg e P <-> coll_neg coll P) /\ (entry_pos e P <-> coll_pos coll P).
+Proof. exact entry_law. Qed.
+Print Assumptions C04_entry_law.
+
+(* a whole TRCL cell at TRIPOLI-4 level: with every dictionary entry converted by
+   convert_entry, the expression written for the moved cell holds at O + B^T p' exactly when the
+   expression written for the unmoved cell holds at p' *)
+Theorem C04_trcl_cell_t4 : forall (o : R3) (b : M3 R) cellsem (t t' : gtree) (st st' : pstate),
+  rows_orthonormal b -> surf_only (fst st) t = true -> (0 <= fst st)%Z ->
+  table_wf (snd st) -> keys_le (fst st) (snd st) ->
+  table_cwf (snd st) -> table_cwf (snd st') ->
+  apply_trcl RS [tr12 o b] t st = Ok (t', st') ->
+  forall p', region_t4 cellsem (snd st') t' (to_main o b p') <-> region_t4 cellsem (snd st) t p'.
+Proof. exact trcl_cell_t4. Qed.
+Print Assumptions C04_trcl_cell_t4.
 
 (* non-vacuity: the quarter turn about z used by the corpus deck
    TRCL=(1 0 0  0 1 0  -1 0 0  0 0 1) satisfies every hypothesis on B, and moves
